@@ -26,7 +26,7 @@ def jobs(tier, seed, pool):
              'resave_first': resave, 'timeout_s': 40}
         if viarng.chance(0.3):
             # renames / texture edits / added nodes while the unknown blocks are present
-            p['edits'] = [editlib.edit_step(viarng, 'quick', allow=['SetNodeName', 'RenameShape', 'SetTexture', 'SetTexturePath', 'SetNodeTransform'])
+            p['edits'] = [editlib.edit_step(viarng, 'quick', allow=['SetNodeName', 'RenameShape', 'SetTexture', 'SetTexturePath', 'SetNodeTransform', 'DeleteUnreferencedTyped', 'DeleteUnreferencedTyped', 'SetExportInfo'])
                           for _ in range(viarng.range(1, 3))]
         if viarng.chance(0.15) and 'sample' in init:
             # a stored file with texture paths that the loader will clean (so that strings change at load)
